@@ -19,6 +19,48 @@ _installed = False
 _state: dict[str, Any] = {"rng": None, "n": 0}
 
 
+class _VTime:
+    """The clock the connector's retry logic reads: a fixed epoch plus the simulated sleeps. A retry back-off therefore
+    costs no wall time, and a retry deadline is reached by simulated sleeping, never by machine load."""
+
+    def __init__(self, real: Any) -> None:
+        self._r = real
+        self.base = 1_700_000_000.0
+        self.offset = 0.0
+        self.sleeps = 0
+
+    def sleep(self, s: float) -> None:
+        self.offset += max(0.0, float(s))
+        self.sleeps += 1
+        sim = core.SIM
+        if sim is not None and not sim.is_quiet():
+            sim.probes["connector_retry_sleeps"] += 1
+
+    def time(self) -> float:
+        return self.base + self.offset  # no real component: machine load cannot reach a deadline
+
+    def monotonic(self) -> float:
+        return self.offset
+
+    def __getattr__(self, name: str) -> Any:
+        return getattr(self._r, name)
+
+
+class _Jitter:
+    """Back-off jitter of the connector from the run's PRNG (a process-global `random` would break replay)."""
+
+    def choice(self, seq: Any) -> Any:
+        rng = _state["rng"]
+        return seq[rng.randrange(len(seq))] if rng is not None else seq[0]
+
+    def randint(self, a: int, b: int) -> int:
+        rng = _state["rng"]
+        return rng.randint(a, b) if rng is not None else b
+
+
+_vtime: _VTime | None = None
+
+
 def asgi_call(method: str, url: str, headers: dict[str, str], body: bytes) -> tuple[int, dict[str, str], bytes]:
     """One HTTP exchange with fakesnow.server.app, no socket. A transport event of the calling session."""
     import fakesnow.server as srv
@@ -105,6 +147,18 @@ def install() -> None:
             return f"tok{_state['n']:04d}{tail}"
 
     srv.secrets = _Secrets()
+    # the connector's retry loop: simulated sleeps, simulated deadline, seeded jitter
+    global _vtime
+    import time as _real_time
+
+    import snowflake.connector.backoff_policies as bp
+    import snowflake.connector.network as net
+    import snowflake.connector.time_util as tu
+
+    _vtime = _VTime(_real_time)
+    net.time = _vtime
+    tu.time = _vtime
+    bp.random = _Jitter()
     _installed = True
 
 
@@ -121,6 +175,8 @@ def reset(rng: Any) -> None:
     srv.sessions.clear()
     _state["rng"] = rng
     _state["n"] = 0
+    if _vtime is not None:
+        _vtime.offset = 0.0
 
 
 def client_connect(database: str | None, schema: str | None, db_path: str | None = None) -> Any:
@@ -137,5 +193,5 @@ def client_connect(database: str | None, schema: str | None, db_path: str | None
         kw["schema"] = schema
     return snowflake.connector.connect(
         user="fake", password="snow", account="fakesnow", host="localhost", port=1, protocol="http",
-        session_parameters=params, network_timeout=3600, login_timeout=3600, platform_detection_timeout_seconds=0, **kw,  # no real-clock deadline may fire under load
+        session_parameters=params, network_timeout=40, login_timeout=40, platform_detection_timeout_seconds=0, **kw,  # deadlines are read from the simulated clock (_VTime): reached by simulated back-off sleeps only
     )
